@@ -184,6 +184,17 @@ func (fr *Frame) preludeCall(st *State, name string, fn *ssa.Function, args []Va
 			return Val{T: Forall(bs, Implies(And(facts...), body))}, true
 		}
 		return Val{T: Exists(bs, And(append(facts, body)...))}, true
+	case "__witness":
+		// always true; its only purpose is to put the term x into the formula so that the solver's
+		// E-matching has something to instantiate an existential's bound variable with
+		w := ex.ctx.UF("witness_int", SBool, args[0].T)
+		if !ex.witnessAx {
+			ex.witnessAx = true
+			x := V("x!wit", SInt)
+			wa := App("witness_int", SBool, x)
+			ex.axioms = append(ex.axioms, &Term{Op: "forall", Sort: SBool, Pat: []*Term{wa}, Bound: []Bound{{"x!wit", SInt}}, Args: []*Term{wa}})
+		}
+		return Val{T: w}, true
 	case "__mapAt":
 		// the value stored under a key, without Go's "zero value when absent" (use under a presence hypothesis)
 		return Val{T: ex.mapGetRaw(st, cc.Args[0].Type(), args[0].T, args[1].T)}, true
